@@ -104,6 +104,7 @@ func (l *listener) accept() (Conn, error) {
 
 	localAddr, err := internal.SocketAddress(fd)
 	if err != nil {
+		_ = syscall.Close(fd)
 		return nil, err
 	}
 
